@@ -31,8 +31,8 @@ FUNCTIONS = [
 TG_ENC = TGrammar(atoms=("int", "str", "NoneType", "Any", "B", "Inner"),
                   generics=("List", "Dict", "DefaultDict", "Set", "Tuple", "TupleVar", "TupleEmpty", "Type", "Callable", "IteratorAny", "Generator",
                             "Union", "TD"), depth=2, max_union=2, max_tuple=2, elem_atoms=("int", "NoneType", "Inner"), td_keys=("a", "b"))
-TG_ENC1 = TGrammar(atoms=("int", "str", "NoneType", "Any", "B", "Inner"), generics=TG_ENC.generics, depth=1, max_union=3,
-                   elem_atoms=("int", "NoneType", "Any", "Inner", "B"))
+TG_ENC1 = TGrammar(atoms=("int", "str", "NoneType", "Any", "B", "Inner", "Color", "Concrete"), generics=TG_ENC.generics, depth=1, max_union=3,
+                   elem_atoms=("int", "NoneType", "Any", "Inner", "B", "Color"))
 
 
 def _rebuild(t):
